@@ -1,6 +1,7 @@
 """T1 data for C05: the control codes Text strips (rich/control.py), the whitespace class used by
 str.rstrip / `\\s` (an interpreter fact, generated from the running interpreter), and the source of
-the `_re_whitespace` pattern the rstrip_end model was written for."""
+the regex `Text.rstrip_end` searches with, which the rstrip_end model was written for.  Everything is located by
+USE (from the public functions strip_control_codes / Text.rstrip_end), never by the name of a private global."""
 import sys
 
 _m = sys.modules.get("__main__")
@@ -9,21 +10,111 @@ generator, parse, find_assign, literal = _run.generator, _run.parse, _run.find_a
 Untranslatable, HEADER, zlit, strlit = _run.Untranslatable, _run.HEADER, _run.zlit, _run.strlit
 
 
+import ast
+
+find_class, find_func = _run.find_class, _run.find_func
+
+
+def _module_value(tree, name, what):
+    """value assigned to a module-level name (the name itself is whatever the source uses)"""
+    try:
+        return find_assign(tree, name)
+    except Untranslatable:
+        raise Untranslatable(f"{what}: module-level name {name!r} has no assignment")
+
+
+def _compile_literal(node, what):
+    """re.compile(<literal>) with no flags -> the pattern string"""
+    if not (isinstance(node, ast.Call) and isinstance(node.func, ast.Attribute) and node.func.attr == "compile"
+            and isinstance(node.func.value, ast.Name) and node.func.value.id == "re"
+            and len(node.args) == 1 and not node.keywords):
+        raise Untranslatable(f"{what}: not re.compile(<literal>) without flags")
+    pat = literal(node.args[0], what)
+    if not isinstance(pat, str):
+        raise Untranslatable(f"{what}: pattern is not a str literal")
+    return pat
+
+
+def _rstrip_end_pattern(ttree):
+    """the regex Text.rstrip_end searches the plain text with -- found by USE, not by the name of the
+    module-level variable: `<name>.search(...)` with <name> = re.compile(<literal>) at module level, or an
+    inline re.search(<literal>, ...)"""
+    fn = find_func(find_class(ttree, "Text").body, "rstrip_end")
+    found = []
+    for node in ast.walk(fn):
+        if isinstance(node, ast.Call) and isinstance(node.func, ast.Attribute) and node.func.attr == "search":
+            recv = node.func.value
+            if isinstance(recv, ast.Name) and recv.id == "re":
+                if not node.args or len(node.args) > 2 or node.keywords:
+                    raise Untranslatable("rstrip_end: re.search with flags")
+                pat = literal(node.args[0], "rstrip_end re.search pattern")
+                if not isinstance(pat, str):
+                    raise Untranslatable("rstrip_end: pattern is not a str literal")
+                found.append(pat)
+            elif isinstance(recv, ast.Name):
+                found.append(_compile_literal(_module_value(ttree, recv.id, "rstrip_end regex"), "rstrip_end regex"))
+            else:
+                raise Untranslatable("rstrip_end: .search on something that is not a plain name")
+    if len(found) != 1:
+        raise Untranslatable(f"rstrip_end: expected exactly one regex search, found {len(found)}")
+    return found[0]
+
+
+def _strip_codes(ctree):
+    """the code points strip_control_codes() removes -- followed from the public function: the table handed to
+    str.translate (a parameter default or a module-level name), built as {cp: None for cp in <list>} or a dict literal"""
+    fn = find_func(ctree.body, "strip_control_codes")
+    tables = [n.args[0] for n in ast.walk(fn)
+              if isinstance(n, ast.Call) and isinstance(n.func, ast.Attribute) and n.func.attr == "translate" and len(n.args) == 1]
+    if len(tables) != 1:
+        raise Untranslatable("strip_control_codes: expected exactly one .translate(table) call")
+    node = tables[0]
+    for _ in range(4):          # parameter -> default -> module-level name -> value
+        if not isinstance(node, ast.Name):
+            break
+        params = fn.args.args + fn.args.kwonlyargs
+        names = [a.arg for a in params]
+        if node.id in names:
+            pos = [a.arg for a in fn.args.args]
+            if node.id in pos:
+                i = pos.index(node.id) - (len(pos) - len(fn.args.defaults))
+                if i < 0:
+                    raise Untranslatable("strip_control_codes: translate table parameter has no default")
+                node = fn.args.defaults[i]
+            else:
+                node = fn.args.kw_defaults[[a.arg for a in fn.args.kwonlyargs].index(node.id)]
+                if node is None:
+                    raise Untranslatable("strip_control_codes: translate table parameter has no default")
+        else:
+            node = _module_value(ctree, node.id, "strip_control_codes table")
+    if isinstance(node, ast.DictComp):
+        if not (len(node.generators) == 1 and not node.generators[0].ifs and isinstance(node.key, ast.Name)
+                and isinstance(node.generators[0].target, ast.Name) and node.key.id == node.generators[0].target.id
+                and isinstance(node.value, ast.Constant) and node.value.value is None):
+            raise Untranslatable("strip_control_codes: table is not {cp: None for cp in <codes>}")
+        it = node.generators[0].iter
+        if isinstance(it, ast.Name):
+            it = _module_value(ctree, it.id, "strip_control_codes codes")
+        codes = literal(it, "strip_control_codes codes")
+    elif isinstance(node, ast.Dict):
+        d = literal(node, "strip_control_codes table")
+        if any(v is not None for v in d.values()):
+            raise Untranslatable("strip_control_codes: table maps to something other than None")
+        codes = list(d.keys())
+    else:
+        raise Untranslatable("strip_control_codes: translate table is neither a dict comprehension nor a dict literal")
+    codes = list(codes)
+    if not all(isinstance(c, int) and not isinstance(c, bool) for c in codes):
+        raise Untranslatable("strip_control_codes: codes are not ints")
+    return codes
+
+
 @generator("ControlCodes.v")
 def gen_control_codes(repo):
-    tree, _ = parse(repo, "rich/control.py")
-    codes = literal(find_assign(tree, "STRIP_CONTROL_CODES"), "STRIP_CONTROL_CODES")
-    if not (isinstance(codes, list) and all(isinstance(c, int) and not isinstance(c, bool) for c in codes)):
-        raise Untranslatable("STRIP_CONTROL_CODES is not a list of ints")
+    ctree, _ = parse(repo, "rich/control.py")
+    codes = _strip_codes(ctree)
     ttree, _ = parse(repo, "rich/text.py")
-    call = find_assign(ttree, "_re_whitespace")
-    try:
-        pat = literal(call.args[0], "_re_whitespace pattern")
-        assert call.func.attr == "compile" and len(call.args) == 1 and not call.keywords
-    except Untranslatable:
-        raise
-    except Exception:
-        raise Untranslatable("_re_whitespace is not re.compile(<literal>)")
+    pat = _rstrip_end_pattern(ttree)
     ranges = []
     for cp in range(0x110000):
         if chr(cp).isspace():
@@ -33,7 +124,7 @@ def gen_control_codes(repo):
                 ranges.append([cp, cp])
     out = HEADER
     out += "Definition STRIP_CONTROL_CODES : list Z :=\n  [" + "; ".join(zlit(c) for c in codes) + "].\n\n"
-    out += "(* source of rich.text._re_whitespace *)\nDefinition RE_WHITESPACE_src : list Z := " + strlit(pat) + ".\n\n"
+    out += "(* source of the regex Text.rstrip_end searches with (rich.text._re_whitespace in 9.10.0) *)\nDefinition RE_WHITESPACE_src : list Z := " + strlit(pat) + ".\n\n"
     out += "(* str.isspace() of the running interpreter, inclusive ranges *)\nDefinition TEXT_SPACE_RANGES : list (Z * Z) :=\n  ["
     out += "; ".join(f"({a}, {b})" for a, b in ranges) + "].\n"
     return out
